@@ -30,16 +30,16 @@ def norm_site(site):
 TEMPLATES = {
  "tpl_shapes": {
   "lib.sw": "library;\npub mod shapes;\npub mod user;\n",
-  "shapes.sw": "library;\npub struct Point { pub x: u64, pub y: u64, z: u64 }\nimpl Point { pub fn new(x: u64, y: u64) -> Self { Self { x, y, z: 0 } } pub fn z(self) -> u64 { self.z } }\npub enum Shape { Dot: Point, Line: (Point, Point), Empty: () }\npub trait Area { fn area(self) -> u64; }\nimpl Area for Shape { fn area(self) -> u64 { match self { Shape::Dot(_) => 0, Shape::Line((a, b)) => a.x + b.x, Shape::Empty => 0 } } }\n",
-  "user.sw": "library;\nuse ::shapes::{Point, Shape, Area};\npub fn f(p: Point) -> u64 { let Point { x, y, .. } = p; x + y }\npub fn g(s: Shape) -> u64 { match s { Shape::Dot(Point { x, y, .. }) => x + y, Shape::Line((Point { x, .. }, b)) => x + b.y, Shape::Empty => s.area() } }\n#[test]\nfn t() { assert(f(Point::new(1, 2)) == 3); assert(g(Shape::Empty) == 0); }\n",
+  "shapes.sw": "library;\npub struct Point { pub x: u64, pub y: u64, z: u64 }\nimpl Point { pub fn new(x: u64, y: u64) -> Self { Self { x, y, z: 0 } } pub fn z(self) -> u64 { self.z } }\npub enum Shape { Dot: Point, Line: (Point, Point), Empty: () }\npub trait Area { fn area(self) -> u64; }\nimpl Area for Shape { fn area(self) -> u64 { match self { Shape::Dot(_) => 0, Shape::Line((a, b)) => a.x + b.x, Shape::Empty => 0, } } }\n",
+  "user.sw": "library;\nuse ::shapes::{Point, Shape, Area};\npub fn f(p: Point) -> u64 { let Point { x, y, .. } = p; x + y }\npub fn g(s: Shape) -> u64 { match s { Shape::Dot(Point { x, y, .. }) => x + y, Shape::Line((Point { x, .. }, b)) => x + b.y, Shape::Empty => s.area(), } }\npub fn m(p: Point) -> u64 { match p { Point { x: 0, y, .. } => y, Point { x, y, .. } => x + y, } }\npub fn n(q: (Point, Point)) -> u64 { match q { (Point { x, .. }, Point { y, .. }) => x + y, } }\npub fn o(s: Shape) -> u64 { if let Shape::Dot(Point { x, y, .. }) = s { x + y } else { 0 } }\npub struct Wrap { pub p: Point, pub k: u64 }\npub fn w(v: Wrap) -> u64 { match v { Wrap { p: Point { x, y, .. }, k } => x + y + k, } }\n#[test]\nfn t() { assert(f(Point::new(1, 2)) == 3); assert(g(Shape::Empty) == 0); assert(m(Point::new(0, 5)) == 5); }\n",
  },
  "tpl_generic": {
   "lib.sw": "library;\npub mod boxes;\npub mod uses;\n",
-  "boxes.sw": "library;\npub struct Boxed<T> { pub v: T, pub n: u64 }\nimpl<T> Boxed<T> { pub fn get(self) -> T { self.v } }\npub enum Either<A, B> { L: A, R: B }\npub const LIMIT: u64 = 7;\npub fn pick<A>(e: Either<A, A>) -> A { match e { Either::L(a) => a, Either::R(b) => b } }\n",
-  "uses.sw": "library;\nuse ::boxes::*;\npub fn h(b: Boxed<u64>) -> u64 { let Boxed { v, n } = b; if n > LIMIT { v } else { pick(Either::L(v)) } }\npub fn k(e: Either<Boxed<bool>, u8>) -> u64 { match e { Either::L(Boxed { v: true, n }) => n, Either::L(Boxed { v: false, .. }) => 0, Either::R(x) => x.as_u64() } }\n#[test]\nfn t() { assert(h(Boxed { v: 3, n: 9 }) == 3); }\n",
+  "boxes.sw": "library;\npub struct Boxed<T> { pub v: T, pub n: u64 }\nimpl<T> Boxed<T> { pub fn get(self) -> T { self.v } }\npub enum Either<A, B> { L: A, R: B }\npub const LIMIT: u64 = 7;\npub fn pick<A>(e: Either<A, A>) -> A { match e { Either::L(a) => a, Either::R(b) => b, } }\n",
+  "uses.sw": "library;\nuse ::boxes::*;\npub fn h(b: Boxed<u64>) -> u64 { let Boxed { v, n } = b; if n > LIMIT { v } else { pick(Either::L(v)) } }\npub fn k(e: Either<Boxed<bool>, u8>) -> u64 { match e { Either::L(Boxed { v: true, n }) => n, Either::L(Boxed { v: false, .. }) => 0, Either::R(x) => x.as_u64(), } }\npub fn j(b: Boxed<u64>) -> u64 { match b { Boxed { v, n } => v + n, } }\n#[test]\nfn t() { assert(h(Boxed { v: 3, n: 9 }) == 3); }\n",
  },
  "tpl_contract": {
-  "main.sw": "contract;\nmod data;\nuse data::{Rec, Kind};\nstorage { r: Rec = Rec { a: 1, k: Kind::A }, n: u64 = 5 }\nabi C { #[storage(read)] fn get() -> u64; #[storage(write)] fn set(r: Rec); }\nimpl C for Contract {\n #[storage(read)] fn get() -> u64 { let Rec { a, k } = storage.r.read(); match k { Kind::A => a, Kind::B(x) => x + storage.n.read() } }\n #[storage(write)] fn set(r: Rec) { storage.r.write(r); }\n}\n",
+  "main.sw": "contract;\nmod data;\nuse data::{Rec, Kind};\nstorage { r: Rec = Rec { a: 1, k: Kind::A }, n: u64 = 5 }\nabi C { #[storage(read)] fn get() -> u64; #[storage(write)] fn set(r: Rec); }\nimpl C for Contract {\n #[storage(read)] fn get() -> u64 { let Rec { a, k } = storage.r.read(); match k { Kind::A => a, Kind::B(x) => x + storage.n.read(), } }\n #[storage(write)] fn set(r: Rec) { storage.r.write(r); }\n}\n",
   "data.sw": "library;\npub enum Kind { A: (), B: u64 }\npub struct Rec { pub a: u64, pub k: Kind }\n",
  },
 }
@@ -220,6 +220,8 @@ def run(ctx):
         st = r["status"] if not r.get("ice") else "ice"
         stats[st] = stats.get(st, 0) + 1
         kinds[kind.split("+")[0]] = kinds.get(kind.split("+")[0], 0) + 1
+        if kind == "template" and st != "ok":
+            ctx.violation("template-broken-" + name, {"package": d, "result": r}, "C17 template package %s no longer builds (%s): its mutants exercise nothing" % (name, st), no_input=True)
         if st == "panic":
             # stable key: file + slug of the message (no line numbers, no values)
             slug = re.sub(r"[^a-z]+", "-", re.sub(r"\d+", "", r.get("msg", "").lower()))[:48].strip("-")
